@@ -41,14 +41,14 @@ def _mock_meta(cls: type) -> type:
 
 class float(builtins.float, metaclass=_mock_meta(builtins.float)):  # type: ignore[misc]
     def __new__(cls, x: Any = 0.0, /) -> Any:
-        if isinstance(x, GuppyObject):
+        if isinstance(x, GuppyObject | GuppyStructObject):
             return x.__float__()
         return builtins.float(x)
 
 
 class int(builtins.int, metaclass=_mock_meta(builtins.int)):  # type: ignore[misc]
     def __new__(cls, x: Any = 0, /, *args: Any, **kwargs: Any) -> Any:
-        if isinstance(x, GuppyObject):
+        if isinstance(x, GuppyObject | GuppyStructObject):
             return x.__int__(*args, **kwargs)
         return builtins.int(x, *args, **kwargs)
 
